@@ -190,6 +190,10 @@ class Peer:
         ep = await self.connection()
         ep.send_message(msg)
 
+    def ep_send(self, msg):
+        if self.ep is not None and not self.ep.writer.is_closing():
+            self.ep.send_message(msg)
+
     async def _read_loop(self, ep):
         M = self.s.M
         while True:
@@ -227,7 +231,8 @@ class Peer:
                 if not chunk:
                     break
                 got += len(chunk)
-            await done.wait()
+            if not self.s.eager:
+                await done.wait()
             ep.close()
         else:
             await self._read_loop(ep)
@@ -252,6 +257,10 @@ class Peer:
             self.offers[msg.ticket] = (key, int(msg.filesize or 0))
             self.pending[key] = msg.ticket
             s.log('offer', **kf)
+            if s.eager:                  # this peer takes what it is offered at once and to the end
+                self.pending.pop(key, None)
+                s.log('env', what='accept', **kf)
+                self.ep_send(M.PeerTransferReply.Request(msg.ticket, True, filesize=None))
 
 
 # ---------------------------------------------------------------------------
@@ -269,6 +278,8 @@ class Session:
         # 5 s disconnect timeout): an abort of a running upload then suspends the management cycle
         self.slow_close = (rng.random() < 0.6) if slow_close is None else slow_close
         self.held = []
+        # eager: the peers accept every offer at once and read to the end (uploads get COMPLETE)
+        self.eager = (not self.slow_close) and rng.random() < 0.5
         self.variants = variants
         self.events: list[dict] = []
         self.notes: list[str] = []
@@ -358,6 +369,11 @@ class Session:
         self.ctx_blocked = {u: set(v) for u, v in self.cfg['blocked'].items()}
         self.log('tick', kind='blocked')
 
+    def _on_transfer_removed(self, event):
+        for t, kf in self.uploads:
+            if t is event.transfer:
+                self.log('removed', **kf)
+
     def _on_scan_complete(self, event):
         self.log('scan', **self.index_snapshot())
 
@@ -423,7 +439,7 @@ class Session:
         from aioslsk.protocol import messages as M
         from aioslsk.protocol.primitives import UserStats
         from aioslsk.events import (TransferAddedEvent, FriendListChangedEvent, BlockListChangedEvent,
-                                    ScanCompleteEvent)
+                                    ScanCompleteEvent, TransferRemovedEvent)
         self.M = M
         self.loop = loop
         w = self.w
@@ -438,6 +454,7 @@ class Session:
         self._alias = {}
         self.uploads = []
         self.treq_tickets = {}
+        self._tasks = []
         self.tickets = iter(range(1000, 100000))
         self.last_user_change = -1e9
         self.net = simnet.SimNet(loop).install()
@@ -469,10 +486,11 @@ class Session:
             self._listener = Listener()
             # the bus holds listeners weakly: keep them; priority 0 = told before the library's own listeners
             self._cbs = [self._on_transfer_added, self._on_friends_changed, self._on_blocked_changed,
-                         self._on_scan_complete]
+                         self._on_scan_complete, self._on_transfer_removed]
             client.events.register(TransferAddedEvent, self._cbs[0], priority=0)
             client.events.register(FriendListChangedEvent, self._cbs[1], priority=0)
             client.events.register(BlockListChangedEvent, self._cbs[2], priority=0)
+            client.events.register(TransferRemovedEvent, self._cbs[4], priority=0)
 
             await client.start()
             await client.login()
@@ -539,16 +557,22 @@ class Session:
         if name == 'SetMode':
             d, m = args
             if d in cfg['shared'] and cfg['mode'][d] != m:
+                lookers = self.rng.sample(USERS, 2)
+                await self.look(lookers)
                 cfg['mode'][d] = str(m)
                 await api('setmode', lambda: shares.update_shared_directory(w.dir[d], share_mode=DirectoryShareMode(m)),
                           d=d, m=str(m))
+                await self.look(lookers)
                 await self.battery()
         elif name == 'SetUsers':
             d, us = args
             if d in cfg['shared'] and cfg['dusers'][d] != set(us):
+                lookers = sorted(cfg['dusers'][d] ^ set(us))[:2]
+                await self.look(lookers)
                 cfg['dusers'][d] = set(us)
                 await api('setusers', lambda: shares.update_shared_directory(w.dir[d], users=sorted(w.user[u] for u in us)),
                           d=d, us=sorted(us))
+                await self.look(lookers)
                 await self.battery()
         elif name == 'AddDir':
             d, m, us = args
@@ -581,11 +605,13 @@ class Session:
             new = set(cfg['friends'])
             (new.add if on else new.discard)(u)
             if new != cfg['friends'] and new != self.ctx_friends:     # assumption: no revert within a period
+                await self.look([u])
                 cfg['friends'] = new
                 fr = self.settings.users.friends
                 (fr.add if on else fr.discard)(w.user[u])
                 self.last_user_change = self.loop.time()
                 self.log('friend', u=u, on=bool(on), **self.index_snapshot())
+                await self.look([u])
                 await self.battery()
         elif name == 'SetBlock':
             u, fl = args
@@ -593,6 +619,7 @@ class Session:
             new = {x: set(v) for x, v in cfg['blocked'].items()}
             new[u] = fl
             if fl != cfg['blocked'][u] and new != self.ctx_blocked:
+                await self.look([u])
                 cfg['blocked'] = new
                 bl = self.settings.users.blocked
                 if fl:
@@ -606,6 +633,7 @@ class Session:
                     bl[w.user[u]] = BlockingFlag.NONE
                 self.last_user_change = self.loop.time()
                 self.log('block', u=u, fl=sorted(fl), **self.index_snapshot())
+                await self.look([u])
                 await self.battery()
         elif name == 'SetExcluded':
             ps, = args
@@ -643,7 +671,7 @@ class Session:
         elif name in ('QueueRequest', 'TransferRequest'):
             u, p = args[0], args[1]
             await self.request('queue' if name == 'QueueRequest' else 'transfer', u, p[0], p[1], str(p[2]))
-        elif name in ('PeerAccept', 'PeerFinish', 'PeerReject', 'UserAbort', 'UserPause'):
+        elif name in ('PeerAccept', 'PeerFinish', 'PeerReject', 'UserAbort', 'UserPause', 'UserRemove'):
             u, p = args[0][0], args[0][1]
             await self.transfer_action(name, (u, p[0], p[1], str(p[2])))
         else:
@@ -674,7 +702,7 @@ class Session:
             if i >= 2 and not any(w._wc_gate is not None and not w._wc_gate.done() for w in self.held):
                 break
         ups = [dict(st=t.state.VALUE.name, reason=reason_of(t), **kf)
-               for t, kf in self.uploads if t in self.client.transfers.transfers]
+               for t, kf in self.uploads if self.listed(t)]
         self.log('quiescent', ups=ups)
 
     # -- observations ----------------------------------------------------------------------
@@ -751,12 +779,29 @@ class Session:
                 await self.shares_request(u)
             else:
                 await self.dir_request(u, self.rng.choice(FILES))
+        # the peer of an upload that is over (COMPLETE / FAILED) asks for the same file again
+        over = [kf for t, kf in self.uploads if kf['f'] != 'none' and kf['v'] == 'exact'
+                and self.listed(t) and t.state.VALUE.name in ('COMPLETE', 'FAILED')]
+        if over and not searches_only and self.rng.random() < 0.5:
+            kf = self.rng.choice(over)
+            await self.request(self.rng.choice(('queue', 'queue', 'transfer')), kf['u'], kf['f'], kf['d'], 'exact',
+                               plain=True)
+
+    async def look(self, users):
+        """what these users are shown right now (asked before and after a change that concerns them, with
+        nothing else in between)"""
+        if self.probes <= 0:
+            return
+        for u in users:
+            await self.shares_request(u)
+            if self.rng.random() < 0.5:
+                await self.search(u, 'all')
 
     # -- requests ------------------------------------------------------------------------------
-    async def request(self, kind, u, f, d, v):
+    async def request(self, kind, u, f, d, v, plain=False):
         M = self.M
         forms = [v]
-        if self.variants and v == 'exact':
+        if self.variants and v == 'exact' and not plain:
             r = self.rng.random()
             if r < 0.35:
                 forms = [self.rng.choice(('case', 'sep', 'fwd')), v]
@@ -778,9 +823,13 @@ class Session:
                 await self.peers[u].send(M.PeerTransferRequest.Request(0, tk, path, filesize=0))
             await self.settle()
 
+    def listed(self, t):
+        """the record itself (not an equal one made later) is in the list of transfers"""
+        return any(x is t for x in self.client.transfers.transfers)
+
     def find_upload(self, key):
         for t, kf in self.uploads:
-            if (kf['u'], kf['f'], kf['d'], kf['v']) == key and t in self.client.transfers.transfers:
+            if (kf['u'], kf['f'], kf['d'], kf['v']) == key and self.listed(t):
                 return t, kf
         return None, None
 
@@ -808,6 +857,19 @@ class Session:
             fc[0].link.writers[0].resume()                 # the peer reads the rest and closes:
             fc[0].link.writers[0].release_wait_closed()    # nothing to wait for on our side
             fc[1].set()
+        elif name == 'UserRemove':
+            t, _ = self.find_upload(key)
+            if t is None:
+                return
+            self.log('rmcall', **kf)
+
+            async def remove():
+                try:
+                    await self.client.transfers.remove(t)
+                except Exception as exc:
+                    self.log('error', what=f'remove:{type(exc).__name__}')
+            # not awaited here: the removal of an upload whose abort is suspended waits for that abort
+            self._tasks.append(asyncio.create_task(remove()))
         elif name in ('UserAbort', 'UserPause'):
             t, _ = self.find_upload(key)
             if t is None:
@@ -919,6 +981,35 @@ SCENARIOS = {
         ('SetBlock', 'u2', frozenset({'up'})), ('UserMgmtTick',), ('CycleBegin',), ('Quiesce',),
         ('SetFriend', 'u1', False), ('UserMgmtTick',), ('CycleBegin',), ('SetBlock', 'u2', frozenset()), ('UserMgmtTick',),
         ('AbortsDone',), ('CycleBegin',), ('Quiesce',))),
+    # an upload that is over is asked for again after its user lost the right to it
+    'finished-upload-asked-for-again-after-block': (DEFAULT_INIT, (
+        ('QueueRequest', 'u2', P_F1), ('QueueRequest', 'u1', P_F3), ('Cycle',), ('PeerAccept', ('u2', P_F1)),
+        ('PeerFinish', ('u2', P_F1)), ('PeerReject', ('u1', P_F3)), ('SetBlock', 'u2', frozenset({'up'})),
+        ('SetBlock', 'u1', frozenset({'up', 'search'})), ('UserMgmtTick',), ('Cycle',), ('Quiesce',),
+        ('QueueRequest', 'u2', P_F1), ('QueueRequest', 'u1', P_F3), ('Cycle',), ('TransferRequest', 'u2', P_F1),
+        ('TransferRequest', 'u1', P_F3), ('Cycle',), ('PeerAccept', ('u2', P_F1)), ('PeerAccept', ('u1', P_F3)), ('Quiesce',))),
+    'finished-upload-asked-for-again-after-unshare': (DEFAULT_INIT, (
+        ('QueueRequest', 'u1', P_F3), ('QueueRequest', 'u2', P_F1), ('Cycle',), ('PeerAccept', ('u1', P_F3)),
+        ('PeerFinish', ('u1', P_F3)), ('PeerReject', ('u2', P_F1)), ('SetFriend', 'u1', False), ('SetMode', 'D1', 'friends'),
+        ('UserMgmtTick',), ('Cycle',), ('QueueRequest', 'u1', P_F3), ('QueueRequest', 'u2', P_F1), ('Cycle',),
+        ('TransferRequest', 'u1', P_F3), ('Cycle',), ('RemoveDir', 'D3'), ('QueueRequest', 'u1', P_F3), ('Cycle',), ('Quiesce',))),
+    # an earlier record is removed while the cycle waits for the abort of a running upload
+    'remove-during-suspended-abort': (DEFAULT_INIT, (
+        ('QueueRequest', 'u3', P_F1), ('QueueRequest', 'u2', P_F1), ('Cycle',), ('QueueRequest', 'u1', P_F1),
+        ('PeerAccept', ('u2', P_F1)), ('SetMode', 'D1', 'users'), ('CycleBegin',), ('UserRemove', ('u3', P_F1)),
+        ('AbortsDone',), ('CycleBegin',), ('Quiesce',))),
+    'remove-finished-during-suspended-abort': (DEFAULT_INIT, (
+        ('QueueRequest', 'u3', P_F1), ('Cycle',), ('PeerReject', ('u3', P_F1)), ('QueueRequest', 'u2', P_F1), ('Cycle',),
+        ('PeerAccept', ('u2', P_F1)), ('QueueRequest', 'u1', P_F3), ('Cycle',), ('SetMode', 'D1', 'friends'),
+        ('SetMode', 'D3', 'users'), ('CycleBegin',), ('UserRemove', ('u3', P_F1)), ('AbortsDone',), ('CycleBegin',), ('Quiesce',))),
+    # what a user is shown before and after he alone loses the right (no share change in between)
+    'browse-before-and-after-losing-the-right': (DEFAULT_INIT, (
+        ('SharesFrom', 'u1'), ('SearchFrom', 'u1', 'all'), ('SetFriend', 'u1', False), ('SharesFrom', 'u1'),
+        ('SearchFrom', 'u1', 'all'), ('DirFrom', 'u1', 'f3'), ('UserMgmtTick',), ('SharesFrom', 'u1'),
+        ('SetFriend', 'u1', True), ('SharesFrom', 'u1'), ('SetMode', 'D3', 'users'), ('SharesFrom', 'u1'),
+        ('SetUsers', 'D3', frozenset({'u1', 'u2'})), ('SharesFrom', 'u1'), ('SharesFrom', 'u2'),
+        ('SetUsers', 'D3', frozenset({'u2'})), ('SharesFrom', 'u1'), ('SharesFrom', 'u2'),
+        ('SetBlock', 'u2', frozenset({'shares'})), ('SharesFrom', 'u2'), ('SetBlock', 'u2', frozenset()), ('SharesFrom', 'u2'))),
     'rescan-one-directory': (DEFAULT_INIT, (
         ('QueueRequest', 'u1', P_F3), ('RemoveDir', 'D3'), ('Cycle',), ('AddDir', 'D3', 'friends', frozenset()), ('Cycle',),
         ('ScanDir', 'D3'), ('Cycle',))),
@@ -959,17 +1050,21 @@ def collect(chk: Check, thorough: bool):
 
     # the small exhaustive models: checked (with coverage, for vacuity) and dumped in one TLC run each;
     # an edge-cover sample of the state graph is replayed
-    for label, cfg, expect, npaths in (
+    for label, cfg, expect, npaths in [m for m in (
             ('Entitlement dirs (nesting, modes, scans; exhaustive)', 'MC_dirs.cfg',
              ['SetMode', 'AddDir', 'RemoveDir', 'ScanAll', 'ScanDir', 'QueueRequest', 'TransferRequest', 'CycleBegin',
-              'CycleEnd', 'AbortsDone', 'PeerAccept', 'PeerReject', 'UserAbort', 'UserPause'], 450 if thorough else 150),
+              'CycleEnd', 'AbortsDone', 'PeerAccept', 'PeerReject', 'UserAbort', 'UserPause', 'UserRemove'], 450 if thorough else 130),
             ('Entitlement users (friends, blocks, ticks; exhaustive)', 'MC_users.cfg',
              ['SetMode', 'SetUsers', 'SetFriend', 'SetBlock', 'UserMgmtTick', 'QueueRequest', 'TransferRequest',
-              'CycleBegin', 'CycleEnd', 'PeerAccept', 'UserAbort'], 450 if thorough else 150),
+              'CycleBegin', 'CycleEnd', 'PeerAccept', 'UserAbort', 'UserRemove'], 450 if thorough else 130),
             ('Entitlement three nested directories (exhaustive)', 'MC_nest3.cfg',
              ['SetMode', 'AddDir', 'RemoveDir', 'ScanAll', 'ScanDir', 'QueueRequest', 'TransferRequest', 'CycleBegin',
-              'CycleEnd'], 200 if thorough else 70)):
-        for attempt in (1, 2):      # a design-model run does not depend on the tree under test: if its
+              'CycleEnd'], 200 if thorough else 60),
+            ('Entitlement finished uploads asked for again (exhaustive)', 'MC_rereq.cfg',
+             ['SetMode', 'SetFriend', 'SetBlock', 'UserMgmtTick', 'QueueRequest', 'TransferRequest', 'CycleBegin',
+              'CycleEnd', 'AbortsDone', 'PeerAccept', 'PeerFinish', 'PeerReject', 'UserAbort', 'UserRemove'],
+             200 if thorough else 70)) if thorough or m[1] != 'MC_nest3.cfg']:     # (three levels: quick has
+        for attempt in (1, 2):                                                      # the scenarios and MC_sim)      # a design-model run does not depend on the tree under test: if its
             g, res = tlc.dump_graph(SPEC, cfg, parse_states='init', coverage=True, timeout=1200)   # output is
             missing = [a for a in expect if res.coverage.get(a, (0, 0))[1] == 0] if res.ok else []  # cut short,
             if not missing:                                                                          # run it again
